@@ -24,7 +24,6 @@ func runC12(c *an.Ctx) string {
 	return explanationC12
 }
 
-
 // reviewedIndexes: constant indexes whose bound follows from reasoning the
 // length dataflow cannot do.
 var reviewedIndexes = map[string]string{
